@@ -42,10 +42,13 @@ def library_accepts(text):
     return isinstance(root, ET.Element), root
 
 
-def library_accepts_file(text):
+HDR_V1 = "OFXHEADER:100\r\nDATA:OFXSGML\r\nVERSION:102\r\nSECURITY:NONE\r\nENCODING:USASCII\r\nCHARSET:NONE\r\nCOMPRESSION:NONE\r\nOLDFILEUID:NONE\r\nNEWFILEUID:NONE\r\n\r\n"
+HDR_V2 = '<?xml version="1.0" encoding="UTF-8" standalone="no"?>\r\n<?OFX OFXHEADER="200" VERSION="203" SECURITY="NONE" OLDFILEUID="NONE" NEWFILEUID="NONE"?>\r\n'
+
+
+def library_accepts_file(text, hdr=HDR_V1):
     from ofxtools.Parser import OFXTree
 
-    hdr = "OFXHEADER:100\r\nDATA:OFXSGML\r\nVERSION:102\r\nSECURITY:NONE\r\nENCODING:USASCII\r\nCHARSET:NONE\r\nCOMPRESSION:NONE\r\nOLDFILEUID:NONE\r\nNEWFILEUID:NONE\r\n\r\n"
     try:
         t = OFXTree()
         root = t.parse(io.BytesIO((hdr + text).encode("utf_8")))
@@ -134,8 +137,12 @@ def check_case(case):
     rc = reason_class(verdict[1])
     if acc:
         out.append((f"accepted/{rc}", f"op={case.get('op')} {text!r} ({verdict[1]}) parsed as {X.from_etree(root)!r}"))
-    elif case.get("file") and library_accepts_file(text):
-        out.append((f"accepted-by-OFXTree/{rc}", f"op={case.get('op')} {text!r}"))
+    elif case.get("file"):
+        # the same body as a complete file, under a version-1 and under a version-2 header
+        if library_accepts_file(text, HDR_V1):
+            out.append((f"accepted-by-OFXTree/{rc}", f"op={case.get('op')} {text!r}"))
+        if library_accepts_file(text, HDR_V2):
+            out.append((f"accepted-by-OFXTree-under-v2-header/{rc}", f"op={case.get('op')} {text!r}"))
     return out
 
 
@@ -191,7 +198,7 @@ def run_doc(s, text, plain, byte_level, sample_file=False, bare=True):
         case = {"op": op, "text": m}
         if byc:
             case["by_construction"] = True
-        if sample_file and n % 7 == 0:
+        if sample_file and n % (7 if sample_file is True else int(sample_file)) == 0:
             case["file"] = True
         nontrivial = levels >= 2 and not (op == "truncate" and len(m) <= first_tag_end)
         s.case(case, nontrivial=nontrivial, h=H.chash(m))
@@ -228,7 +235,7 @@ def _sample_worker(job):
     def body(node):
         text = X.render(node)
         s.label("base-documents-sampled")
-        run_doc(s, text, X.plain(node), byte_level, sample_file=True)
+        run_doc(s, text, X.plain(node), byte_level, sample_file=4)
 
     H.hyp_run(c02.tree_st(10), body, n, seed, stats=s)
     return s
@@ -253,7 +260,7 @@ def _real_worker(job):
     if tree is None:
         raise H.HarnessError(f"real doc not well-formed: {X.classify(text)}")
     s.label("base-documents-real")
-    run_doc(s, text, tree, byte_level, sample_file=True)
+    run_doc(s, text, tree, byte_level, sample_file=1)
     return s
 
 
